@@ -116,3 +116,67 @@ Definition prec_sb (f step : N) (out : option N) : bool :=
   | Some v => tsc_sb 0 step f (Ok v)
   | None => false
   end.
+
+(** * The per-kind cache of [Timer::precision] (timer.rs: one [OnceLock] per
+    [TimerKind]; the value measured by the first query of a kind is what every
+    later query of that kind reports — the value printed as "Timer precision"
+    and used by the sampling loop). *)
+
+Inductive tkind := KOs | KTsc.
+
+Definition tkind_eqb (a b : tkind) : bool :=
+  match a, b with KOs, KOs => true | KTsc, KTsc => true | _, _ => false end.
+
+(** Cache state: the two [OnceLock]s. *)
+Record pcache := { pc_os : option N; pc_tsc : option N }.
+Definition pcache_empty : pcache := {| pc_os := None; pc_tsc := None |}.
+
+Definition pc_get (c : pcache) (k : tkind) : option N :=
+  match k with KOs => pc_os c | KTsc => pc_tsc c end.
+
+Definition pc_set (c : pcache) (k : tkind) (v : N) : pcache :=
+  match k with
+  | KOs => {| pc_os := Some v; pc_tsc := pc_tsc c |}
+  | KTsc => {| pc_os := pc_os c; pc_tsc := Some v |}
+  end.
+
+(** One call of [precision()] on a timer of kind [k] whose
+    [measure_precision()] would return [m] if it ran now ([get_or_init]). *)
+Definition prec_query (c : pcache) (q : tkind * N) : N * pcache :=
+  let '(k, m) := q in
+  match pc_get c k with
+  | Some v => (v, c)
+  | None => (m, pc_set c k m)
+  end.
+
+Fixpoint prec_queries (c : pcache) (qs : list (tkind * N)) : list N :=
+  match qs with
+  | [] => []
+  | q :: qs' => let '(v, c') := prec_query c q in v :: prec_queries c' qs'
+  end.
+
+(** Declarative reading: the first measurement of kind [k] in [qs]. *)
+Fixpoint first_of_kind (k : tkind) (qs : list (tkind * N)) : option N :=
+  match qs with
+  | [] => None
+  | (k', m) :: qs' => if tkind_eqb k k' then Some m else first_of_kind k qs'
+  end.
+
+Fixpoint all_eqb (l : list N) : bool :=
+  match l with
+  | x :: ((y :: _) as t) => (x =? y) && all_eqb t
+  | _ => true
+  end.
+
+(** Boolean specification evaluated on the implementation's answers to a query
+    sequence in ONE process.  [kinds] = the queried kinds, [tscv] = the value a
+    TSC measurement gives under the virtual clock (the first TSC query's step,
+    C11's precision clause), the OS clock has nanosecond resolution: every TSC
+    answer is [tscv]; all OS answers are equal, non-zero and whole nanoseconds
+    (so in particular no answer of one kind is the other kind's value when
+    [tscv] is not a whole number of nanoseconds). *)
+Definition precq_sb (kinds : list tkind) (tscv : N) (answers : list N) : bool :=
+  (length kinds =? length answers)%nat &&
+  forallb (fun ka => match fst ka with KTsc => snd ka =? tscv | KOs => true end) (combine kinds answers) &&
+  (let os := map snd (filter (fun ka => tkind_eqb (fst ka) KOs) (combine kinds answers)) in
+   all_eqb os && forallb (fun v => (0 <? v) && (v mod 1000 =? 0)) os).
